@@ -199,6 +199,9 @@ func (fv *FuncVer) checkInvariants(st *State, spec *LoopSpec, key, phase string,
 		if label == "" {
 			label = fmt.Sprintf("#%d", i+1)
 		}
+		if !fv.clauseActive(label) {
+			continue
+		}
 		g := fv.evalBool(env, cl.Expr)
 		fv.oblige(st, "loop:"+key+"/"+phase+"["+label+"]", "", token.NoPos, g, "loop invariant ("+phase+"): "+cl.Text)
 	}
@@ -211,6 +214,9 @@ func (fv *FuncVer) assumeInvariants(st *State, spec *LoopSpec, f *Frame) {
 	env := fv.frameEnv(st, f)
 	fv.loopVisited(st, f, env)
 	for _, cl := range spec.Invariants {
+		if !fv.clauseActive(cl.Name) {
+			continue
+		}
 		st.assume(fv.evalBool(env, cl.Expr))
 	}
 }
